@@ -373,8 +373,11 @@ def main(argv):
         wall_s=round(time.time() - t0, 2),
         violations=len(violations) + len(witness_violations),
     )
-    os.makedirs(os.path.join(VERIF, "evidence"), exist_ok=True)
-    with open(os.path.join(VERIF, "evidence", prop + ".json"), "w") as fh:
+    evdir = os.path.join(VERIF, "evidence")
+    if os.environ.get("SOSV_REPO", "/repo") != "/repo":
+        evdir = os.path.join(VERIF, "build", "evidence-scratch")   # development runs against a copy never touch the evidence
+    os.makedirs(evdir, exist_ok=True)
+    with open(os.path.join(evdir, prop + ".json"), "w") as fh:
         json.dump(ev, fh, indent=1)
     for l in out_lines:
         print(l)
